@@ -762,3 +762,33 @@ PROPS['C19'] = dict(
     assumptions=['cut at Layer::hash_with_dxdy: it returns the cell number and offsets chosen by the harness (every cell in range, offsets in [0, 1] on the 1/256 lattice)',
                  'Layer::neighbours is the adjacency oracle (decided against plane geometry by C04)'],
 )
+
+# ------------------------------------------------------------------------------------------- tier curation
+# 'thorough' is what was run to a verdict on the unchanged tree in the build session (section 10.5 of DESIGN.md); the other members
+# of each parameterised family stay available as tier 'extended' (./check <id> --tier extended [--only <filter>]): same templates,
+# other depths / shapes, not run to a verdict in the build session and therefore not part of any registered command.
+import re as _re
+X = ('extended',)
+_KEEP_T = {
+    'C01': r'^c01_e2e_d(4|8|16|17|29)$|^c01_r_npc_',
+    'C02': r'.',
+    'C03': r'_d(3|8|16|17|28)$|^c03_image_\w+_d29$',
+    'C04': r'^c04_pair_d(4|8|16|17|24)$',
+    'C06': r'.',
+    'C07': r'^(?!c07_(or|xor)_(1_2|2_1)_)',
+    'C08': r'^(?!c08_(or_2_1|xor_1_2)_)',
+    'C09': r'^(?!c09_views_\w+_3_dm1$)',
+    'C10': r'_d(3|5|8|16|17|28)$|^c10_ringends_[ns]_(d26_k67108800|d29_k536870848|d29_k402653184)$',
+    'C11': r'_n(4|7|8|13|536870911|536870912)$',
+    'C14': r'^c14_(internal|parts|dirs)_|^c14_(external|struct)_d0_dd1$|^c14_guard_0$',
+    'C15': r'^(?!c15_fixed_)|^c15_fixed_(d0_cap4_m4|d1_cap2_m2)$',
+    'C16': r'.',
+    'C17': r'.',
+    'C18': r'.',
+    'C19': r'_d(4|8|16|17|28)$',
+}
+for _pid, _p in PROPS.items():
+    _rx = _re.compile(_KEEP_T.get(_pid, '.'))
+    for _h in _p['harnesses']:
+        if _h['tiers'] == T and not _rx.search(_h['name']):
+            _h['tiers'] = X
